@@ -17,9 +17,11 @@ import (
 	"fmt"
 	"math/rand"
 	"os"
+	"os/exec"
 	"runtime"
 	"runtime/debug"
 	"runtime/pprof"
+	"strings"
 	"sync"
 	"time"
 
@@ -276,7 +278,7 @@ func parallel(n int, f func(i int)) {
 func (ck *checker) exhaustive() {
 	c := ck.c
 	r := c.Rand("universes4")
-	nU := c.Pick(3, 23)
+	nU := c.Pick(3, 20)
 	us := tl.Universes4(r, nU)
 	type uctx struct {
 		u      *tl.Universe4
@@ -358,7 +360,7 @@ func (ck *checker) exhaustive() {
 		c.Count("exhaustive_2batch_histories", 256)
 	})
 	// sampled 3-batch histories
-	n3 := c.Pick(4000, 40000)
+	n3 := c.Pick(4000, 8000)
 	type t3 struct{ u, a, b, d int }
 	r3 := c.Rand("exh3")
 	tasks := make([]t3, len(ucs)*n3)
@@ -574,14 +576,74 @@ func (ck *checker) replay() {
 	}
 }
 
+type tailBuf struct {
+	mu  sync.Mutex
+	buf []byte
+}
+
+func (t *tailBuf) Write(p []byte) (int, error) {
+	t.mu.Lock()
+	t.buf = append(t.buf, p...)
+	if len(t.buf) > 1<<16 {
+		t.buf = t.buf[len(t.buf)-(1<<16):]
+	}
+	t.mu.Unlock()
+	return os.Stderr.Write(p)
+}
+
+func superviseChild(c *vf.Ctx) {
+	exe, err := os.Executable()
+	if err != nil {
+		c.Inconclusive("cannot locate own executable: " + err.Error())
+		c.Finish("supervisor", 0)
+	}
+	cmd := exec.Command(exe, os.Args[1:]...)
+	cmd.Env = append(os.Environ(), "VERIF_C10_CHILD=1")
+	cmd.Stdout = os.Stdout
+	tb := &tailBuf{}
+	cmd.Stderr = tb
+	cmd.Run()
+	code := -1
+	if cmd.ProcessState != nil {
+		code = cmd.ProcessState.ExitCode()
+	}
+	out := string(tb.buf)
+	crashed := strings.Contains(out, "panic:") || strings.Contains(out, "fatal error:")
+	if code == 0 || code == 1 || !crashed {
+		if code < 0 {
+			code = 2
+		}
+		os.Exit(code) // the child wrote the evidence file
+	}
+	head := out
+	if i := strings.Index(out, "panic:"); i >= 0 {
+		head = out[i:]
+	} else if i := strings.Index(out, "fatal error:"); i >= 0 {
+		head = out[i:]
+	}
+	if len(head) > 1500 {
+		head = head[:1500]
+	}
+	c.Violation("driver-crash/trie-goroutine-panic", "the trie crashed the process while applying a valid batch (panic outside the calling goroutine):\n"+head, nil)
+	c.Finish("supervisor: workload process crashed inside the code under test", 0)
+}
+
 func main() {
 	c := vf.Start("C10", "exploration")
-	ck := &checker{c: c, scratch: c.Scratch(), roots: map[string][32]byte{}}
 	if c.ReplayPath != "" {
+		ck := &checker{c: c, scratch: c.Scratch(), roots: map[string][32]byte{}}
 		ck.replay()
 		c.Finish("replay", 0)
 		return
 	}
+	if os.Getenv("VERIF_C10_CHILD") == "" {
+		// The trie updates subtrees in goroutines of its own; a panic there cannot be recovered
+		// and would end the driver with the Go runtime's status 2.  Run the workload in a child
+		// and turn such a crash into what it is: the trie failing on a valid batch.
+		superviseChild(c)
+		return
+	}
+	ck := &checker{c: c, scratch: c.Scratch(), roots: map[string][32]byte{}}
 	if p := os.Getenv("VERIF_PROF"); p != "" { // developer aid only
 		if f, err := os.Create(p); err == nil {
 			pprof.StartCPUProfile(f)
